@@ -144,7 +144,7 @@ THEOREMS = ["T_Tracks: the definition of equality separates every single-compone
 
 
 def run(ctx):
-    res = core.run_model(ctx, "MC_C19", 1200, thorough_seeds=(2, 3, 5))
+    res = core.run_model(ctx, "MC_C19", 1200, thorough_seeds=(2, 3, 5, 7))
     core.tlc_must_pass(res, "MC_C19")
     ctx.add_tlc(res, "every shape x every single-component perturbation (each coordinate, weight, interior knot, degree) and the twins")
     ctx.theorems = THEOREMS
